@@ -288,6 +288,8 @@ func genProgram(rt *rapid.T, pf *profile) *Program {
 			}
 			if !pf.oneKey {
 				o.Key = irange(rt, 0, p.Hot-1, "key")
+			} else if p.Hot > 1 && irange(rt, 0, 4, "mateKey") == 0 {
+				o.Key = 1 // a writer on a bucket mate / neighbouring key of the raced key
 			}
 			if i == 0 && t == nthr-1 && p.Mode == "grow" {
 				// the grow trigger: an insert of absent k0
